@@ -1287,6 +1287,7 @@ class Context:
             JSUint8ClampedArray,
             JSArrayBuffer,
             JSArray,
+            JSTypedArray,
         )
 
         type_classes = {
@@ -1313,12 +1314,30 @@ class Context:
             elif isinstance(arg, JSArrayBuffer):
                 # new Int32Array(buffer, byteOffset?, length?)
                 buffer = arg
-                byte_offset = int(args[1]) if len(args) > 1 else 0
                 element_size = array_class._element_size
-
-                if len(args) > 2:
-                    length = int(args[2])
+                # byteOffset and length go through ToIndex and must describe a
+                # whole number of elements inside the buffer
+                byte_offset = (
+                    _alloc_length(args[1], "typed array offset")
+                    if len(args) > 1 and args[1] is not UNDEFINED
+                    else 0
+                )
+                if byte_offset % element_size != 0:
+                    raise JSRangeError(
+                        f"start offset of {name} should be a multiple of {element_size}"
+                    )
+                if len(args) > 2 and args[2] is not UNDEFINED:
+                    length = _alloc_length(args[2], "typed array")
+                    if byte_offset + length * element_size > buffer.byteLength:
+                        raise JSRangeError(f"Invalid typed array length: {length}")
                 else:
+                    if (
+                        buffer.byteLength % element_size != 0
+                        or byte_offset > buffer.byteLength
+                    ):
+                        raise JSRangeError(
+                            f"byte length of {name} should be a multiple of {element_size}"
+                        )
                     length = (buffer.byteLength - byte_offset) // element_size
 
                 result = array_class(length)
@@ -1351,6 +1370,15 @@ class Context:
                 for i in range(length):
                     result.set_index(i, arg.get_index(i))
                 return result
+            if isinstance(arg, JSTypedArray):
+                # new Int32Array(otherTypedArray): element-wise copy
+                result = array_class(arg.length)
+                for i in range(arg.length):
+                    result.set_index(i, arg.get_index(i))
+                return result
+            if not isinstance(arg, JSObject):
+                # Any other primitive is a length (ToIndex)
+                return array_class(_alloc_length(arg, "typed array"))
             return array_class(0)
 
         constructor = JSCallableObject(constructor_fn)
